@@ -56,9 +56,21 @@ PROPS = {
   },
 }
 
+PROPS["C01"] = {
+  "units": ["egress", "enc", "framer"],
+  "kani_quick": [], "kani_thorough": [],
+  "claim": "Session-local byte-stream conservation, proved unbounded on the verbatim functions: EgressBuffer (push appends at the tail, advance(n) drops exactly n bytes from the front for every n and every chunking, "
+           "push_priority inserts only after the partially written head chunk, counters follow the view) and the batch encoders (frame_contiguous / frame_vectored / NullFramer wrappers emit exactly enc_batches of the frames in batch order: "
+           "nothing reordered, merged, dropped or duplicated). End-to-end delivery across tasks, pipes and the kernel is a whole-system property and is not claimed.",
+  "level_note": "Sequential contracts on single-owner state (the session actor owns EgressBuffer exclusively). Not covered: batch assembly in actor.rs (tokio::select! body), DEALER pending queue, inproc path, fibre channels, the 'accepted during connect' part.",
+  "technique": "contract-based deductive verification (Verus on mechanically extracted real functions; abstract view + representation invariant)",
+  "trusted_base": COMMON_TRUSTED + ["vstd VecDeque specs + assume_specification for VecDeque::front/is_empty"],
+  "assumptions": ["pending bytes and message counters fit in usize (preconditions)", "advance(n) is called with n <= pending bytes (what poll_write_vectored can return)"],
+}
+
 NOT_BUILT = "check not built yet in this revision (planned, see DESIGN.md section 9)"
 NOT_APPLICABLE = {
-  "C01": NOT_BUILT, "C02": NOT_BUILT, "C04": NOT_BUILT, "C05": NOT_BUILT, "C06": NOT_BUILT, "C07": NOT_BUILT,
+  "C02": NOT_BUILT, "C04": NOT_BUILT, "C05": NOT_BUILT, "C06": NOT_BUILT, "C07": NOT_BUILT,
   "C09": NOT_BUILT, "C10": NOT_BUILT, "C11": NOT_BUILT, "C13": NOT_BUILT, "C14": NOT_BUILT, "C17": NOT_BUILT, "C19": NOT_BUILT,
   "C08": "lost wake-ups are an invariant over interleavings of individual atomic/channel steps plus a liveness claim; Kani has no threads and Verus would need its own atomic/permission types, i.e. a re-implementation (a model), not the code that runs (DESIGN.md section 6)",
   "C12": "SubscriptionTrie is Arc<RwLock<TrieNode>> nodes with HashMap children and an AtomicUsize: no abstract view without rewriting it (Verus), parking_lot crashes kani-compiler 0.68; non-blocking fan-out is a schedule property",
